@@ -313,9 +313,7 @@ func (tp *TableParser) parseCellParagraph(p paragraphXML) parsedParagraph {
 	// Extract text from runs
 	var textParts []string
 	for _, run := range p.Runs {
-		for _, t := range run.Text {
-			textParts = append(textParts, t.Value)
-		}
+		textParts = append(textParts, runText(run))
 	}
 	parsed.Text = strings.Join(textParts, "")
 
